@@ -62,9 +62,15 @@ def run(tier, seed, jobs):
     A = "A"
     core = [{"s": A, "op": "del", "set": "*"}, {"s": A, "op": "del", "set": "1"}, {"s": A, "op": "append", "m": "INBOX"},
             {"s": "env", "op": "deliver", "m": "INBOX"}, {"s": "env", "op": "restart"}, {"s": "env", "op": "poll", "dt": 21.0}]
+    # incarnations: every SELECT reveals the UIDVALIDITY of the name's current incarnation
+    vv_core = [{"s": A, "op": "create", "m": "n"}, {"s": A, "op": "delete", "m": "n"}, {"s": A, "op": "select", "m": "n"},
+               {"s": A, "op": "rename", "m": "n", "to": "m"}, {"s": A, "op": "select", "m": "m"}, {"s": "env", "op": "restart"},
+               {"s": A, "op": "delete", "m": "m"}]
     res = run_h(PROP, RULES, [{"cfg_ref": ("vf.props.c02", "cfg", []), "alphabet": alphabet(tier), "depth": depth, "label": "INBOX(2),a,a/b"},
                                {"cfg_ref": ("vf.props.c02", "cfg", []), "alphabet": core, "depth": 5 if tier == "quick" else 6,
-                                "label": "INBOX selected; core alphabet (messages go, come, pack, restart), deep"}],
+                                "label": "INBOX selected; core alphabet (messages go, come, pack, restart), deep"},
+                               {"cfg_ref": ("vf.props.c02", "cfg", []), "alphabet": vv_core, "depth": 5 if tier == "quick" else 6,
+                                "label": "UIDVALIDITY core alphabet (create, delete, re-create, rename, select, restart), deep"}],
                  ("C02",), jobs, seed,
                  ["one session; mailboxes INBOX(2 messages), a, a/b; pack threshold lowered to 3 messages / ratio 0.8 via the class attributes",
                   "restart = orderly shutdown() + real start-up sequence on the same directory",
